@@ -1,0 +1,57 @@
+//go:build verif
+
+package filesystem
+
+// Contracts checked by /verif/gocv (comment-only file; see /verif/DESIGN.md §3).
+
+// C03. Two-phase publication of part files. What the transaction hooks of PutPart and DeletePart did to the part
+// directory before a commit that then fails is undone by their rollback hooks: a published part is removed again (and
+// the part it replaced is moved back), a staged file that was never published is discarded, a part that was moved away
+// for deletion is moved back. The restoring rename is the last thing that touches the part's name.
+
+// (The three names are distinct by construction - the staged file is ".<part>.*.tmp", the backup "<part>.txbackup.<ulid>" -
+// which the closures assume, as they assume that a pre-commit hook runs once: nothing is published or backed up yet.)
+// PutPart, pre-commit: the staged file is published under the part's name only after an existing file of that name
+// was moved to the backup name; a failed publication moves the backup back; `published` says what happened.
+//@ func (*filesystemPartStore).PutPart$1
+//@ mode effects
+//@ requires tempName != filename && backupName != filename && tempName != backupName && !published && !backupCreated
+//@ effect[C03:part-published-from-the-staged-file] every os.Rename($a, $b) if $a == tempName where $b == filename
+//@ effect[C03:existing-part-backed-up-before-publication] every os.Rename($a, $b) if $a == tempName
+//@     needs before os.Rename($x, $y) where $x == filename && $y == backupName
+//@ effect[C03:publication-recorded] every returns() if err == nil where published
+//@ effect[C03:failed-publication-recorded] every returns() if err != nil where !published
+
+// PutPart, after commit: only the backup of the replaced part is removed.
+//@ func (*filesystemPartStore).PutPart$2
+//@ mode effects
+//@ effect[C03:only-the-backup-is-dropped-after-commit] every os.Remove($f) where $f == backupName && backupCreated
+
+// PutPart, rollback.
+//@ func (*filesystemPartStore).PutPart$3
+//@ mode effects
+//@ requires tempName != filename && backupName != filename && tempName != backupName
+//@ effect[C03:rollback-removes-the-published-part] every returns() if old(published) needs before os.Remove($f) where $f == filename
+//@ effect[C03:rollback-restores-the-replaced-part] every returns() if old(published) && old(backupCreated)
+//@     needs before os.Rename($a, $b) where $a == backupName && $b == filename
+//@ effect[C03:rollback-discards-the-staged-file] every returns() if !old(published) needs before os.Remove($f) where $f == tempName
+//@ effect[C03:rollback-removes-nothing-else] every os.Remove($f) where $f == filename && old(published) || $f == tempName && !old(published)
+//@ effect[C03:restoring-rename-comes-last] every os.Rename(_, _) forbids after os.Remove(_)
+
+// DeletePart: the part is moved away before commit, dropped after commit, moved back on rollback.
+//@ func (*filesystemPartStore).DeletePart$1
+//@ mode effects
+//@ requires backupName != filename && !backupCreated
+//@ effect[C03:deleted-part-is-moved-to-the-backup-name] every os.Rename($a, $b) where $a == filename && $b == backupName
+//@ effect[C03:move-recorded] every returns() if backupCreated needs before os.Rename(_, _) -> ($e) where $e == nil
+//@ effect[C03:missing-part-is-not-an-error] every returns() if !backupCreated && err == nil needs before os.Rename(_, _) -> ($e) where $e != nil
+
+//@ func (*filesystemPartStore).DeletePart$2
+//@ mode effects
+//@ effect[C03:only-the-moved-part-is-dropped-after-commit] every os.Remove($f) where $f == backupName && backupCreated
+
+//@ func (*filesystemPartStore).DeletePart$3
+//@ mode effects
+//@ requires backupName != filename
+//@ effect[C03:rollback-moves-the-part-back] every returns() if old(backupCreated) needs before os.Rename($a, $b) where $a == backupName && $b == filename
+//@ effect[C03:rollback-moves-nothing-else] every os.Rename($a, $b) where $a == backupName && $b == filename && old(backupCreated)
